@@ -961,7 +961,7 @@ func (ex *Exec) havocModifies(st *State, fc *FuncContract, pc *preparedCall) {
 
 func (ex *Exec) qualifyComp(comp string, fc *FuncContract) string {
 	// "T.f" -> "pkgname.T.f"
-	if strings.Count(comp, ".") == 1 {
+	if strings.Count(comp, ".") == 1 && !strings.HasPrefix(comp, "ptr.") {
 		if p, ok := ex.ld.byPath[fc.PkgPath]; ok {
 			return p.Name() + "." + comp
 		}
